@@ -666,6 +666,10 @@ func FarPoints() []geom.Point {
 	for k := 0; k < 12; k++ {
 		o = append(o, geom.Point{X: 600*frac(float64(k)*0.6180339887498949+0.1234) - 300, Y: 800*frac(float64(k)*0.7548776662466927+0.4321) - 400})
 	}
+	// a million extents away, beside each side of the contents and diagonally:
+	// from there the nearest object is the one nearest that side, whatever lies
+	// closest to the foot of the perpendicular
+	o = append(o, geom.Point{X: 1000000.5, Y: 0.3}, geom.Point{X: -1e6, Y: 1.7}, geom.Point{X: 0.7, Y: 1e6}, geom.Point{X: 2.2, Y: -1e7}, geom.Point{X: 1e6, Y: 1000000.37})
 	return o
 }
 
